@@ -70,7 +70,7 @@ def gen_program(rng, k, ensembles=("canonical", "hamiltonian", "isobaric", "isot
         msize = rng.choice([1, 1, 2, 3])
         p["exchange"] = {"symbols": ["H", "O", "H"][:msize] if msize > 1 else [rng.choice(["Ar", "H"])],
                          "positions": [[0.0, 0.0, 0.0], [0.96, 0.0, 0.0], [-0.24, 0.93, 0.0]][:msize]}
-        p["N0"] = rng.randint(0, 5)
+        p["N0"] = len({x for x in base_labels if x >= 0})      # consistent with the labelled exchangeable particles
         e = exch_leaf()
         moves.append({"name": "e", "expr": e})
         if multi_insert and rng.random() < 0.45:
